@@ -17,7 +17,7 @@ LEVEL_TEXT = ("for every drawn configuration the cancellation point is enumerate
               "task is suspended; configurations (layout, jitter, terminal delays) are sampled")
 SCENARIOS = {"slow": 2, "fast": 2, "process": 1}
 TIERS = {"quick": {"runs": 640, "chunk": 4, "recheck": 2},
-         "thorough": {"runs": 6400, "chunk": 8, "recheck": 4}}
+         "thorough": {"runs": 50000000, "wall_s": 600, "chunk": 8, "recheck": 16}}
 RULE = ("one run = one drawn configuration (1-3 terminals, read-write or read-only, FMMU or "
         "direct, wire jitter, AL transition delays 0..2 polls) of a slow SyncGroup or a "
         "FastSyncGroup on the simulated bus; a reference simulation counts the S steps of "
